@@ -12,6 +12,17 @@ to be discharged per smoother from the C06 sweep theorems) and the direct solver
   `vecOf (apply prm sm direct ls scr f).1  = h.applyB p pre_cycles *ᵥ vecOf f`           (`apply_realizes`)
 
 with `p = ⟨npre, npost, ncycle⟩`, so that the theorems of `Properties/C02b.lean` about `Hier.B` speak about the model.
+
+Inputs of `Realizes` that other packages have to supply for the *real* component models (not proved here):
+1. per smoother: `SweepIs (sm.applyPre s A) n (matOf A n n) N` (and `applyPost`) with `N = jacobiN ω (matOf A)`,
+   `spai0N`, `gsN` / `gsNback` (`Proofs/EnergySmoother.lean`) — from the C06 sweep theorems; the shape
+   `residual; x += M·tmp` is covered by `sweepIs_of_residual_spmv` (with `M` as a diagonal `CRS`; `vmul` instead of `spmv`
+   needs the analogous two-line lemma);
+2. direct solver: `matOf Ad *ᵥ vecOf (direct Ad f) = vecOf f` and `IsUnit (matOf Ad).det` (C16, skyline LU);
+3. for hierarchies produced by `Amg.build`: `matOf (galerkin nt A P R) = matOf R * matOf A * matOf P` (C03 `galerkin_get`),
+   `matOf (transpose P) = (matOf P)ᵀ` (C08), `matOf (sortRows A) = matOf A`, and `ColsLt` from `CRS.WF`;
+4. the analytic hypotheses `Hier.OK` on the input: `A` SPD, `P` injective (aggregation: every aggregate non-empty, C04),
+   weak diagonal dominance of the level matrices for Jacobi / SPAI-0.
 -/
 set_option linter.unusedSectionVars false
 namespace Amgcl.Energy.Bridge
